@@ -182,4 +182,17 @@ PROPS = {
                 "Non-trivial: (1) a history with >=2 overlapping operations of which >=1 writes; (3) a fault at a write step with len(new) != len(old). Distinct by case.",
         "assumptions": ["local file system; flock-based locking as on Linux"],
     },
+    "C20": {
+        "pkg": "c20_goproxy",
+        "level": "exploration",
+        "engine": "rapid",
+        "race": True,
+        "technique": "rapid-generated module directories (escaped paths, release/pre-release/pseudo/+incompatible/invalid versions, .txt/.txtar/directory layouts, nested and dot files) served by a real goproxytest.Server; oracle = stored bytes, zip member set and contents, list multiset, 404 for absent requests, concurrent-equals-sequential against a fresh server, end-to-end `go mod download` for a sample",
+        "level_text": "Each case materialises 1-4 module paths x 1-4 versions in drawn storage forms and starts a Server. Every stored (path, version, ext) is requested: .info/.mod must be byte-identical to the stored entries, .zip must open with archive/zip and contain exactly the stored files whose names do not start with a dot under path@version/ with identical bytes, list must return exactly the non-pseudo versions valid for the path; drawn absent requests (unknown path/version/extension, unescaped upper case, missing /@v/) must yield 404. The same request set is then fired three times from 16 goroutines at a fresh server and must reproduce the sequential responses. 5% of cases also run `go mod download` against the proxy and compare the extracted tree. Thorough builds with -race.",
+        "level_note": "Trusted: archive/zip, golang.org/x/mod/module (Check, IsPseudoVersion, escaping) as the definition of valid/pseudo versions. net/http interleavings are not controlled (randomized + race detector). All-hex version strings are excluded from the 404 class (they resolve by commit-hash prefix by design). A list request for a module with no listable version may answer 404 or an empty list.",
+        "shards": {"quick": 4, "thorough": 16},
+        "rule": "case = 1-4 paths from 8 (upper-case letters, elements starting with v, /vN suffixes, gopkg.in) x 1-4 versions from the path's pool (release, pre-release, 3 pseudo-version shapes, +incompatible, wrong major) each stored as .txt, .txtar or directory with .info, .mod (sometimes without final newline) and 0-6 files from a pool of nested, dot, empty and unterminated files; 2-6 absent requests from 15 shapes. "
+                "Non-trivial: a module stored in >=2 forms, or an escaped path, or a dot file that must be filtered. Distinct by case.",
+        "assumptions": ["module paths contain no underscore (the naming scheme uses '_' as separator)"],
+    },
 }
